@@ -31,5 +31,4 @@ ENGINES = [
 
 _PLANNED = "check still being built at the time of this commit (TLA+ module and binding described in DESIGN.md section 5); not claimed until it passes on the unchanged tree"
 NOT_APPLICABLE = {f"C{i:02d}": _PLANNED for i in range(1, 39)}
-NOT_APPLICABLE["C38"] = ("one-shot file-to-file translation with no state, schedule or history; the only oracle is the v1->v2 table the converter is generated from, "
-                         "so a TLA+ transcription would restate the implementation (DESIGN.md section 6)")
+# C38 was first listed as not applicable; an independent oracle (the v1 sample files and release notes shipped in the repo) made a B3 check possible (DESIGN.md section 0.5)
